@@ -2,7 +2,7 @@
    of operation sequences on the executable model. *)
 From Coq Require Import String.
 From Gemato Require Import Py.PyStr Py.PyLit Py.PyPath Gen.Tables Model.Entry Model.Text Model.OpenPGP
-  Model.Hash Model.FS Model.Verify Model.Loader Exec.Sx Exec.Oracles.
+  Model.Hash Model.FS Model.Verify Model.Loader Model.Update Gen.Profile Exec.Sx Exec.Oracles.
 Open Scope N_scope.
 
 Definition dec_otable (x : sx) : otable :=
@@ -35,23 +35,25 @@ Definition dec_world (x : sx) : world :=
   | _ => mk_world 0 [] [] []
   end.
 
-(* decompression table: (format, compressed bytes, plain bytes) ; a listed entry with the marker
-   "bad" instead of plain bytes means invalid data; an unlisted pair is an oracle miss *)
-Definition ctable := list (list N * list N * option (list N)).
+(* codec table: (direction, format, input bytes, result): direction "d" = decompress, "c" = compress;
+   the result is the output bytes, or 0 = invalid data (BadGzipFile / LZMAError / errno-less OSError),
+   or 1 = damaged stream (zlib.error / EOFError); an unlisted query is an oracle miss *)
+Definition ctable := list (list N * list N * list N * res (list N)).
 Definition dec_ctable (x : sx) : ctable :=
   map (fun e => match x_list e with
-                | [f; c; SS p] => (x_str f, x_str c, Some p)
-                | [f; c; _] => (x_str f, x_str c, None)
-                | _ => ([], [], None)
+                | [d; f; c; SS p] => (x_str d, x_str f, x_str c, Ok p)
+                | [d; f; c; SN 0] => (x_str d, x_str f, x_str c, Err XBadCompressed)
+                | [d; f; c; _] => (x_str d, x_str f, x_str c, Err XCodecInternal)
+                | _ => ([], [], [], Err XBadCompressed)
                 end) (x_list x).
-Fixpoint table_decompress (t : ctable) (fmt data : list N) : res (list N) :=
+Fixpoint table_codec (t : ctable) (dir fmt data : list N) : res (list N) :=
   match t with
-  | [] => Err (XOracleMiss [u "decompress"; fmt; data])
-  | (f, c, p) :: r =>
-      if ustr_eqb f fmt && ustr_eqb c data
-      then match p with Some x => Ok x | None => Err XBadCompressed end
-      else table_decompress r fmt data
+  | [] => Err (XOracleMiss [dir; fmt; data])
+  | (d, f, c, p) :: r =>
+      if ustr_eqb d dir && ustr_eqb f fmt && ustr_eqb c data then p else table_codec r dir fmt data
   end.
+Definition table_decompress (t : ctable) : list N -> list N -> res (list N) := table_codec t (u "d").
+Definition table_compress (t : ctable) : list N -> list N -> res (list N) := table_codec t (u "c").
 
 Definition dec_profile (x : sx) : profile_id :=
   let s := x_str x in
@@ -59,11 +61,16 @@ Definition dec_profile (x : sx) : profile_id :=
 Definition dec_policy (x : sx) : policy :=
   match x_Z x with 0%Z => PolThrow | 1%Z => PolFalse | 2%Z => PolTrue | 3%Z => PolNone | _ => PolParity end.
 
-(* (hashes sort watermark format profile sign keyid verify_openpgp) *)
+(* (hashes sort watermark format profile sign keyid verify_openpgp): the constructor arguments; the
+   profile then fills in what the user left unset (translated set_loader_options), and the
+   constructor's own defaults (sort False, format 'gz') apply last *)
 Definition dec_options (x : sx) : options :=
   match x_list x with
   | [h; s; wm; f; p; sg; k; v] =>
-      mk_opts (x_opt x_strs h) (x_bool s) (x_opt x_Z wm) (x_str f) (dec_profile p)
+      let pid := dec_profile p in
+      let lo := profile_loader_opts pid (mk_lo (x_opt x_strs h) (x_opt x_bool s) (x_opt x_Z wm) (x_opt x_str f)) in
+      mk_opts (lo_hashes lo) (match lo_sort lo with Some b => b | None => false end) (lo_compress_watermark lo)
+              (match lo_compress_format lo with Some fm => fm | None => u "gz" end) pid
               (x_opt x_bool sg) (x_opt x_str k) (x_bool v)
   | _ => mk_opts None false None (u "gz") PDefault None None false
   end.
@@ -72,91 +79,166 @@ Definition enc_call (c : list N * list (list N)) : sx := SL [SS (fst c); sstrs (
 Definition enc_edict (d : edict) : sx :=
   SL (map (fun kv => SL [SS (fst kv); SL (map (fun fe => SL [SS (fst fe); enc_entry (snd fe)]) (snd kv))]) d).
 
+(* every file reachable from the root through directory entries, depth-first, with its content;
+   directories reached a second time (symlinks) are not descended into again *)
+Fixpoint list_files (fuel : nat) (w : world) (i : N) (prefix : list N) (seen : list N) : list sx :=
+  match fuel with
+  | O => []
+  | S f =>
+      match node w i with
+      | Some (IDir _ _ ents) =>
+          flat_map (fun nt =>
+            match snd nt with
+            | TIno j =>
+                match node w j with
+                | Some (IFile _ m _ d) => [SL [SS (prefix ++ fst nt); SS d; SN m]]
+                | Some (IDir _ par _) =>
+                    if (par =? i) && negb (existsb (N.eqb j) seen)
+                    then list_files f w j (prefix ++ fst nt ++ [sl]) (i :: seen) else []
+                | _ => []
+                end
+            | TErr _ => []
+            end) ents
+      | _ => []
+      end
+  end.
+Definition enc_world_files (w : world) : sx := SL (list_files (S (length (w_nodes w))) w (w_root w) [] []).
+
 Section Run.
   Variable dt : otable.
   Variable ct : ctable.
   Let L := table_hashlib dt.
   Let dec := table_decompress ct.
+  Let comp := table_compress ct.
   Let pgp (t : list N) : res sigdata := Err (XPGP PGPNoImpl).
+  Let sign (t : list N) (k : option (list N)) : res (list N) := Err (XPGP PGPNoImpl).
+  Variable wmtime : Z.
+  Variable reload : world -> res loader.
 
-  (* one operation; returns the new loader and the encoded result *)
-  Definition run_op (w : world) (l : loader) (op : sx) : loader * sx :=
+  Definition now0 : PyTime.datetime := PyTime.mkdt 2000 1 1 0 0 0.
+  Definition err_sx (e : exn) : sx := SL [sym "err"; enc_exn e].
+
+  (* one operation; returns the new world and loader and the encoded result *)
+  Definition run_op (w : world) (l : loader) (op : sx) : world * loader * sx :=
     match x_list op with
     | SS c :: args =>
         if ustr_eqb c (u "verify") then
           match args with
           | [p; pol; lm] =>
               match assert_directory_verifies L dec pgp w l (x_str p) (dec_policy pol) (x_opt x_Z lm) with
-              | Ok (l', b, log) => (l', SL [sym "ok"; SL [sbool b; SL (map enc_call log)]])
-              | Err e => (l, SL [sym "err"; enc_exn e])
+              | Ok (l', b, log) => (w, l', SL [sym "ok"; SL [sbool b; SL (map enc_call log)]])
+              | Err e => (w, l, err_sx e)
               end
-          | _ => (l, sym "bad-args")
+          | _ => (w, l, sym "bad-args")
           end
         else if ustr_eqb c (u "find_path_entry") then
           match args with
           | [p] => match find_path_entry_l L dec pgp w l (x_str p) with
-                   | Ok (l', e) => (l', SL [sym "ok"; sopt enc_entry e])
-                   | Err e => (l, SL [sym "err"; enc_exn e])
+                   | Ok (l', e) => (w, l', SL [sym "ok"; sopt enc_entry e])
+                   | Err e => (w, l, err_sx e)
                    end
-          | _ => (l, sym "bad-args")
+          | _ => (w, l, sym "bad-args")
           end
         else if ustr_eqb c (u "verify_path") then
           match args with
           | [p] => match verify_path_l L dec pgp w l (x_str p) with
-                   | Ok (l', (b, d)) => (l', SL [sym "ok"; SL [sbool b; sstrs d]])
-                   | Err e => (l, SL [sym "err"; enc_exn e])
+                   | Ok (l', (b, d)) => (w, l', SL [sym "ok"; SL [sbool b; sstrs d]])
+                   | Err e => (w, l, err_sx e)
                    end
-          | _ => (l, sym "bad-args")
+          | _ => (w, l, sym "bad-args")
           end
         else if ustr_eqb c (u "assert_path_verifies") then
           match args with
           | [p] => match assert_path_verifies L dec pgp w l (x_str p) with
-                   | Ok l' => (l', SL [sym "ok"; SL []])
-                   | Err e => (l, SL [sym "err"; enc_exn e])
+                   | Ok l' => (w, l', SL [sym "ok"; SL []])
+                   | Err e => (w, l, err_sx e)
                    end
-          | _ => (l, sym "bad-args")
+          | _ => (w, l, sym "bad-args")
           end
         else if ustr_eqb c (u "find_dist_entry") then
           match args with
           | [f; p] => match find_dist_entry_l L dec pgp w l (x_str f) (x_str p) with
-                      | Ok (l', e) => (l', SL [sym "ok"; sopt enc_entry e])
-                      | Err e => (l, SL [sym "err"; enc_exn e])
+                      | Ok (l', e) => (w, l', SL [sym "ok"; sopt enc_entry e])
+                      | Err e => (w, l, err_sx e)
                       end
-          | _ => (l, sym "bad-args")
+          | _ => (w, l, sym "bad-args")
           end
         else if ustr_eqb c (u "entry_dict") then
           match args with
           | [p] => match get_file_entry_dict L dec pgp w l (x_str p) None true with
-                   | Ok (l', d) => (l', SL [sym "ok"; enc_edict d])
-                   | Err e => (l, SL [sym "err"; enc_exn e])
+                   | Ok (l', d) => (w, l', SL [sym "ok"; enc_edict d])
+                   | Err e => (w, l, err_sx e)
                    end
-          | _ => (l, sym "bad-args")
+          | _ => (w, l, sym "bad-args")
           end
-        else if ustr_eqb c (u "loaded") then (l, SL [sym "ok"; sstrs (map fst (l_loaded l))])
-        else (l, sym "bad-op")
-    | _ => (l, sym "bad-op")
+        else if ustr_eqb c (u "loaded") then (w, l, SL [sym "ok"; sstrs (map fst (l_loaded l))])
+        else if ustr_eqb c (u "update") then
+          match args with
+          | [p; hs; lm] =>
+              match update_entries_for_directory L dec pgp w l (x_str p) (x_opt x_strs hs) (x_opt x_Z lm) with
+              | Ok l' => (w, l', SL [sym "ok"; SL []])
+              | Err e => (w, l, err_sx e)
+              end
+          | _ => (w, l, sym "bad-args")
+          end
+        else if ustr_eqb c (u "save") then
+          match args with
+          | [hs; force; srt; wm; fmt] =>
+              match save_manifests L dec comp pgp sign wmtime w l
+                      (mk_so (x_opt x_strs hs) (x_bool force) (x_opt x_bool srt) (x_opt x_Z wm) (x_opt x_str fmt)) with
+              | Ok (w', l') => (w', l', SL [sym "ok"; SL []])
+              | Err e => (w, l, err_sx e)
+              end
+          | _ => (w, l, sym "bad-args")
+          end
+        else if ustr_eqb c (u "set_timestamp") then
+          match args with
+          | [d] => match set_timestamp L dec pgp w l (dec_dt d) with
+                   | Ok l' => (w, l', SL [sym "ok"; SL []])
+                   | Err e => (w, l, err_sx e)
+                   end
+          | _ => (w, l, sym "bad-args")
+          end
+        else if ustr_eqb c (u "find_timestamp") then
+          match find_timestamp_l L dec pgp w l with
+          | Ok (l', e) => (w, l', SL [sym "ok"; sopt (fun ie => enc_entry (snd ie)) e])
+          | Err e => (w, l, err_sx e)
+          end
+        else if ustr_eqb c (u "reload") then
+          match reload w with
+          | Ok l' => (w, l', SL [sym "ok"; SL []])
+          | Err e => (w, l, err_sx e)
+          end
+        else if ustr_eqb c (u "files") then (w, l, SL [sym "ok"; enc_world_files w])
+        else if ustr_eqb c (u "manifests") then
+          (w, l, SL [sym "ok"; SL (map (fun km => SL [SS (fst km); SL (map enc_entry (entries_of (snd km)))]) (l_loaded l))])
+        else if ustr_eqb c (u "updated") then (w, l, SL [sym "ok"; sstrs (l_updated l)])
+        else (w, l, sym "bad-op")
+    | _ => (w, l, sym "bad-op")
     end.
 
   Fixpoint run_ops (w : world) (l : loader) (ops : list sx) : list sx :=
     match ops with
     | [] => []
-    | op :: r => let '(l', res) := run_op w l op in
-                 res :: (match res with SL (SS k :: _) => if ustr_eqb k (u "err") then [] else run_ops w l' r | _ => run_ops w l' r end)
+    | op :: r => let '(w', l', res) := run_op w l op in
+                 res :: (match res with SL (SS k :: _) => if ustr_eqb k (u "err") then [] else run_ops w' l' r | _ => run_ops w' l' r end)
     end.
 End Run.
 
-(* (tree world digest-table codec-table (top options allow_create allow_xdev) ops) *)
+(* (tree world digest-table codec-table (top options allow_create allow_xdev) ops write-mtime) *)
 Definition run_tree (args : list sx) : option sx :=
   match args with
-  | [wx; dtx; ctx; lx; ops] =>
+  | [wx; dtx; ctx; lx; ops; wmt] =>
       let w := dec_world wx in
       let dt := dec_otable dtx in
       let ct := dec_ctable ctx in
       match x_list lx with
       | [top; o; ac; ax] =>
-          match new_loader (table_hashlib dt) (table_decompress ct) (fun _ => Err (XPGP PGPNoImpl))
-                           w (x_str top) (dec_options o) (x_bool ac) (x_bool ax) with
-          | Ok l => Some (SL [sym "ok"; SL (run_ops dt ct w l (x_list ops))])
+          let mk := fun (w' : world) (create : bool) =>
+            new_loader (table_hashlib dt) (table_decompress ct) (fun _ => Err (XPGP PGPNoImpl))
+                       w' (x_str top) (dec_options o) create (x_bool ax) in
+          match mk w (x_bool ac) with
+          | Ok l => Some (SL [sym "ok"; SL (run_ops dt ct (x_Z wmt) (fun w' => mk w' false) w l (x_list ops))])
           | Err e => Some (SL [sym "err"; enc_exn e])
           end
       | _ => None
